@@ -114,7 +114,7 @@ func c02Exec(src string) (res *c02Run) {
 	tp := vm.NewThreadPool(2, 50, vm.WithStdout(stdout), vm.WithStderr(stderr))
 	defer func() {
 		tp.Close()
-		waitPoolQuiet() // tasks started but never awaited must not race with the next case's environment reset
+		waitPoolQuiet(tp) // tasks started but never awaited must not race with the next case's environment reset
 	}()
 	v := vm.New(vm.WithStdout(stdout), vm.WithStderr(stderr), vm.WithThreadPool(tp))
 	defer func() { res.Stdout = stdout.String() }()
